@@ -32,7 +32,8 @@ REQUIRED = ["KV.C03.search_refinement", "KV.C03.probing_refines", "KV.C03.probin
 REQUIRED_BUILD = ["KV.C03ProbingBuild.insert_capacity_probingSize", "KV.C03ProbingBuild.findOrInsert_capacity_probingSize",
                   "KV.C03ProbingBuild.insert_below_capacity", "KV.C03ProbingBuild.missing_context_format",
                   "KV.C03ProbingBuild.build_bigram", "KV.C03ProbingBuild.build_bigram_capacity",
-                  "KV.C03ProbingBuild.probing_end_to_end_partial"]
+                  "KV.C03ProbingBuild.probing_end_to_end_partial",
+                  "KV.C03ProbingBuild.probing_build_represents_closed", "KV.C03ProbingBuild.probing_end_to_end_closed"]
 
 KEY_QUANT = "quant-distinct-values-but-count-exceeds-bins"
 KEY_BB1 = "quant-backoff-bits-1-overflow"
